@@ -232,6 +232,10 @@ let classify_m1 (st : mstate) (toks : string list) (model : string) (impl : stri
       else if o = "save" && starts_with "fl(viol,op=save," impl && all_in [ "reopenerr"; "reopenmixture" ] then Some "C05-split-commit"
       else if o = "lvfo" && starts_with "cr(viol" impl && all_in [ "mixture"; "loaderr" ] then Some "C05-split-rollback"
       else if o = "prune" && starts_with "cr(viol" impl && all_in [ "retrydiffers" ] then Some "C05-split-prune"
+      else if o = "bigimport" && starts_with "cr(viol,op=bigimport," impl && all_in [ "loaderr" ] then
+        (* every prefix of the physical batches of a large import: nodes without a root make
+           Load() fail (the recorded mechanism); a visible but incomplete version is reported *)
+        Some "C10-aborted-large-import"
       else if (o = "import" || o = "bigimport") && has "kind=reopenerr," then
         (* position i of fl(viol,op=import_V,i=I/N,..): only after the first background batch *)
         (try
